@@ -2943,6 +2943,8 @@ static int scan_delim_string(struct scanner_s *scanner) {
 
             if (c == delim) {
                 PEEK_CHAR(scanner, c, result);
+                /* peeking may have refilled (and compacted) the buffer */
+                top = scanner->buffer + scanner->buffer_limit;
 
                 if (result != CIF_EOF) {
                     if (result != CIF_OK) {
